@@ -22,7 +22,7 @@ import traceback
 
 from . import lib
 
-CASE_TIMEOUT_S = float(os.environ.get('VERIF_CASE_TIMEOUT', '20'))
+CASE_TIMEOUT_S = float(os.environ.get('VERIF_CASE_TIMEOUT', '60'))
 MAX_FAILS_PER_SHARD = 40
 MAX_SAMPLES_PER_SHARD = 2
 MAX_OUTCOMES_PER_SHARD = 20000
@@ -198,7 +198,8 @@ def _worker(args):
                         r['nunknown'] += 1
                         if len(r['fails']) < MAX_FAILS_PER_SHARD:
                             r['fails'].append(fc)
-                if r['nunknown'] >= 4 * MAX_FAILS_PER_SHARD and time.time() - t0 > 120:
+                if (r['nunknown'] >= 4 * MAX_FAILS_PER_SHARD and time.time() - t0 > 120) or \
+                        (r['nunknown'] >= 1 and time.time() - t0 > 300):
                     # this shard has long established a violation and the tree is slow on it: hand the result back now
                     # (the run is reported as not exhaustive)
                     r['capped'] = 'shard left after %d unexplained failing states and %.0f s' % (r['nunknown'], time.time() - t0)
